@@ -846,7 +846,13 @@ class ValueDecimal(Value):
         return ValueString(str(self))
 
     def asInt(self):
-        return ValueInt(math.trunc(self.value))
+        try:
+            return ValueInt(math.trunc(self.value))
+        except (OverflowError, ValueError):
+            raise CklRuntimeError(
+                ValueString("ERROR"),
+                "Cannot convert " + str(self) + " to int",
+            )
 
     def asDecimal(self):
         return self
@@ -1322,7 +1328,7 @@ class ValueObject(Value):
         current = self
         while current.hasItem("_proto_"):
             current = current.getItem("_proto_")
-            if not current:
+            if not current or not current.isObject():
                 break
             if current.hasItem(key):
                 return current.getItem(key)
@@ -1598,10 +1604,11 @@ class ValueString(Value):
                     datetime.datetime.strptime(self.value, "%Y%m%d")
                 )
         except ValueError:
-            raise CklRuntimeError(
-                ValueString("ERROR"),
-                "Cannot convert " + str(self.value) + " to date",
-            )
+            pass
+        raise CklRuntimeError(
+            ValueString("ERROR"),
+            "Cannot convert " + str(self.value) + " to date",
+        )
 
     def asPattern(self):
         try:
